@@ -35,7 +35,7 @@ PER_PHASE = ['drivingForce', 'impingement', 'Gcrit', 'Rcrit', 'nucRate', 'precip
 def plan(tier):
     if tier == 'quick':
         return dict(runs=150, batch=2, hard_timeout=900, soft_timeout=400)
-    return dict(runs=5000, batch=4, hard_timeout=2400, soft_timeout=900)
+    return dict(runs=3000, batch=4, hard_timeout=2400, soft_timeout=900)
 
 
 def generate(rng, tier, index):
